@@ -327,6 +327,74 @@ func c11Worker(tier Tier) int {
 		}
 		return out
 	}
+	var sweepOnly []CatEntry
+	// further base cases on states the catalogue does not build: role lists holding a name twice
+	// (ESDTSetRole does not de-duplicate), a sender rich enough for long entry lists
+	{
+		dup := &uni.Builder{Env: envs[0], W: catalogueBase(envs[0])}
+		dup.Must(uni.SetRole(uni.B0, uni.S, vmcommon.ESDTRoleNFTBurn, vmcommon.ESDTRoleNFTAddQuantity, vmcommon.ESDTRoleNFTBurn))
+		dup.Must(uni.SetRole(uni.A0, uni.S, vmcommon.ESDTRoleNFTCreate))
+		dup.Must(uni.SetRole(uni.A0, uni.F, vmcommon.ESDTRoleLocalBurn, vmcommon.ESDTRoleLocalBurn))
+		rich := &uni.Builder{Env: envs[0], W: catalogueBase(envs[0])}
+		rich.Must(uni.Call(uni.A0, uni.A0, vmcommon.BuiltInFunctionESDTLocalMint, uni.F, uni.Big(500)))
+		rich.Must(uni.Call(uni.A0, uni.A0, vmcommon.BuiltInFunctionESDTNFTAddQuantity, uni.S, uni.Big(1), uni.Big(500)))
+		if dup.Failed != "" || rich.Failed != "" {
+			ws[0].Fail(P, "harness", "extra-bases", "construction of the extra base states failed: "+dup.Failed+rich.Failed, "case", "extra-bases")
+		} else {
+			add := func(name string, w *world.World, act world.Action) {
+				c := CatEntry{Name: name, Func: act.Func, W: w, Act: act, Light: len(act.Args) > 4}
+				sweepOnly = append(sweepOnly, c)
+				if len(act.Args) <= 8 {
+					bases = append(bases, c)
+				}
+			}
+			add("ESDTUnSetRole/name-stored-twice", dup.W, uni.UnSetRole(uni.B0, uni.S, vmcommon.ESDTRoleNFTBurn))
+			add("ESDTUnSetRole/name-stored-twice-fungible", dup.W, uni.UnSetRole(uni.A0, uni.F, vmcommon.ESDTRoleLocalBurn))
+			add("ESDTUnSetRole/create-stored-twice", dup.W, uni.UnSetRole(uni.A0, uni.S, vmcommon.ESDTRoleNFTCreate))
+			add("ESDTNFTCreateRoleTransfer/create-stored-twice", dup.W, uni.SysCall(uni.A0, vmcommon.BuiltInFunctionESDTNFTCreateRoleTransfer, uni.S, uni.B0))
+			add("ESDTNFTCreateRoleTransfer/create-stored-twice-cross-shard", dup.W, uni.SysCall(uni.A0, vmcommon.BuiltInFunctionESDTNFTCreateRoleTransfer, uni.S, uni.C1))
+			add("ESDTSetRole/name-given-twice", dup.W, uni.SetRole(uni.B0, uni.S, vmcommon.ESDTRoleNFTBurn, vmcommon.ESDTRoleNFTBurn))
+			for _, to := range [][]byte{uni.B0, uni.C1, uni.S0, uni.S1c} {
+				for _, n := range []int{1, 2, 3, 4, 5, 6, 8, 11, 16, 21, 32} {
+					var ents []uni.Ent
+					for i := 0; i < n; i++ {
+						if i%2 == 0 {
+							ents = append(ents, uni.Ent{Tok: uni.F, Nonce: 0, Q: 1})
+						} else {
+							ents = append(ents, uni.Ent{Tok: uni.S, Nonce: 1, Q: 1})
+						}
+					}
+					add(fmt.Sprintf("MultiESDTNFTTransfer/%d-entries-to-%s", n, uni.Name(to)), rich.W, uni.Multi(uni.A0, to, ents))
+				}
+			}
+		}
+	}
+	// every base case as it is, and with its argument list grown by 1..40 further arguments (an
+	// attached call with ever more arguments for the transfers)
+	sweep := append(append([]CatEntry{}, cat...), sweepOnly...)
+	Parallel(len(sweep), func(wk, bi int) {
+		e, env := ws[wk], envs[wk]
+		b := sweep[bi]
+		if b.Act.Kind != world.ActCall {
+			return
+		}
+		for extra := 0; extra <= 40; extra++ {
+			for _, filler := range [][]byte{[]byte("f"), {}} {
+				act := b.Act
+				act.Args = append([][]byte{}, b.Act.Args...)
+				for i := 0; i < extra; i++ {
+					act.Args = append(act.Args, filler)
+				}
+				for _, g := range gases {
+					act.Gas = g
+					checkTotal(e, env, b.W, act, "catalogue:"+b.Name)
+				}
+				if extra == 0 {
+					break
+				}
+			}
+		}
+	})
 	type job struct {
 		base int
 		e1   int
@@ -355,7 +423,7 @@ func c11Worker(tier Tier) int {
 			}
 		}
 		run(a1)
-		if d >= 2 {
+		if d >= 2 && !b.Light {
 			// second deviation: positions at or after the first one (unordered pairs once)
 			for _, e2 := range editsFor(len(a1)) {
 				if e2.pos < e1.pos || len(a1) > 9 && e2.kind == 1 && e2.item%3 != 0 {
